@@ -434,6 +434,9 @@ class Array(AbstractValueWithQuantityObject, Generic[ValuesType]):
         else:
             # not numpy: create a new structure to hold the values
             result = []
+            # Note: the resulting quantity is the same for all the values (obtained here with
+            # neutral values so that it is also available when there are no values at all).
+            q, _ = operation_func(q1, q2, 1.0, 1.0)
             for v0, v1 in values_iteration:
                 q, v = operation_func(q1, q2, v0, v1)
                 result.append(v)
